@@ -523,4 +523,23 @@ def Pat.fullmatch : Pat → Str → M Bool
   | .re r _, s =>
     if s.all isAscii then pure (r.fullmatch s) else throw (.other "non-ASCII")
 
+/-- `s in t` for a collection `t` of strings and compiled patterns (list, tuple, set, frozenset: membership is equality with an
+    element; a compiled pattern never equals a string) -/
+def strInTable (s : Str) (t : List Pat) : Bool := t.any fun p => p.eqStr s
+
+/-- `[x for x in l if c(x)]` with a condition that may raise: every element is tested, in order -/
+def filterM {α : Type} : List α → (α → M Bool) → M (List α)
+  | [], _ => pure []
+  | a :: l, f => f a >>= fun b => filterM l f >>= fun r => pure (if b then a :: r else r)
+
+/-- `any(c(x) for x in l)` over a generator: stops at the first true element -/
+def anyM {α : Type} : List α → (α → M Bool) → M Bool
+  | [], _ => pure false
+  | a :: l, f => f a >>= fun b => if b then pure true else anyM l f
+
+/-- `all(c(x) for x in l)` over a generator: stops at the first false element -/
+def allM {α : Type} : List α → (α → M Bool) → M Bool
+  | [], _ => pure true
+  | a :: l, f => f a >>= fun b => if b then allM l f else pure false
+
 end Py
